@@ -39,7 +39,7 @@ class Subgrid:
         self.aliasing_returns = []   # returns that hand out this grid's own storage
         good = []
         for e in rets:
-            r = w.expand(e.value)
+            r = self._inline_local_cells(w, w.expand(e.value))
             rows = r.args[0] if (isinstance(r, ast.Call) and src(r.func) == 'Grid'
                                  and len(r.args) == 1) else None
             row = self._row(rows.elt) if rows is not None and isinstance(rows, ast.ListComp) \
@@ -139,6 +139,41 @@ class Subgrid:
         if getattr(self, 'fill_and_copy', False):
             self.n_returns = 2      # the test mentions the area bounds: enumerate small areas
         self.cond = formula_of(self.test) if self.test is not None else None
+
+    @staticmethod
+    def _inline_local_cells(w, e: ast.AST) -> ast.AST:
+        """a nested one-expression helper that picks the cell for a position
+        (`def cell(position): return self.objects[position.y][position.x] if .. else pad()`) is
+        read at its call sites, and `Position(a, b).y` / `.x` are the coordinates given"""
+        import copy
+        from .inline import _SubstNames, pure_body_expr
+        helpers = {}
+        for name, node in getattr(w, 'local_funcs', {}).items():
+            b = pure_body_expr(node)
+            if b is not None and not node.args.vararg and not node.args.kwarg:
+                helpers[name] = ([a.arg for a in node.args.args], b)
+        if not helpers:
+            return e
+
+        class T(ast.NodeTransformer):
+            def visit_Call(self, n: ast.Call):
+                self.generic_visit(n)
+                if isinstance(n.func, ast.Name) and n.func.id in helpers and not n.keywords \
+                        and len(n.args) == len(helpers[n.func.id][0]):
+                    ps, b = helpers[n.func.id]
+                    return _SubstNames(dict(zip(ps, n.args))).visit(copy.deepcopy(b))
+                return n
+
+        class P(ast.NodeTransformer):
+            def visit_Attribute(self, n: ast.Attribute):
+                self.generic_visit(n)
+                if n.attr in ('y', 'x') and isinstance(n.value, ast.Call) and \
+                        src(n.value.func) == 'Position' and len(n.value.args) == 2 and \
+                        not n.value.keywords:
+                    return n.value.args[0 if n.attr == 'y' else 1]
+                return n
+        out = P().visit(T().visit(copy.deepcopy(e)))
+        return ast.parse(ast.unparse(ast.fix_missing_locations(out)), mode='eval').body
 
     @staticmethod
     def _shared_rows(w, rets):
